@@ -83,7 +83,8 @@ CtorSem(t, r, d, ins, p) ==
            ELSE [legal |-> p = NoArg, frame |-> EncDevSpecial(r, 0, 0)]
 
 \* skipped (the statement's one excluded combination): instance command with instance byte 0xFE
-Excluded(t, ins) == t = "inst" /\ ins = <<"device", 0>>
+\* ... and "reserved" naming a byte that is not reserved (in range: the same frame as the instance it really is)
+Excluded(t, ins) == t = "inst" /\ (ins = <<"device", 0>> \/ (ins[1] = "reserved" /\ ins[2] \in 0..255 /\ ~ReservedByte(ins[2])))
 
 CtorCellOK(s, c) ==
     IF Mode = "c03" THEN (s.legal /\ c >= 0) => c \div 64 = s.frame
